@@ -205,7 +205,7 @@ def run(ctx):
             for sig, what, detail in judge(c, results[c["id"]]):
                 rep.add(c, sig, what, detail)
 
-    A.pipeline(ctx, "MpiGroupGen.tla", jobs, process, par=len(jobs) if quick else 8, timeout=600 if quick else 1500)
+    A.pipeline(ctx, "MpiGroupGen.tla", jobs, process, par=len(jobs) if quick else 8, timeout=1500)
     ctx.cov["cases_by_kind"] = by_kind
     ctx.cov["world_sizes"] = sorted(worlds)
     ctx.cov["exhaustive"] = True
